@@ -119,8 +119,8 @@ fn wide_shape(rng: &mut Rng) -> String {
 /// kind (the generator of the solid streams) with a dotted style.
 fn dotted_ops(tier: Tier, rng: &mut Rng) -> Vec<String> {
     let quick = tier == Tier::Quick;
-    let sizes: Vec<u32> = if quick { vec![0, 1, 2, 3, 5, 8, 9, 13, 20, 60] } else { (0..=24).chain([40, 60]).collect() };
-    let widths: Vec<u32> = if quick { vec![1, 2, 3, 4, 5, 8, 13, 40] } else { vec![1, 2, 3, 4, 5, 6, 7, 8, 9, 12, 16, 33, 64] };
+    let sizes: Vec<u32> = if quick { vec![0, 1, 2, 3, 5, 8, 9, 13, 20, 60] } else { (0..=16).chain([20, 24, 40, 60]).collect() };
+    let widths: Vec<u32> = if quick { vec![1, 2, 3, 4, 5, 8, 13, 40] } else { vec![1, 2, 3, 4, 5, 6, 8, 9, 12, 16, 33] };
     let mut v = Vec::new();
     for &w in &sizes {
         for &h in &sizes {
@@ -137,7 +137,7 @@ fn dotted_ops(tier: Tier, rng: &mut Rng) -> Vec<String> {
             }
         }
     }
-    for _ in 0..(if quick { 400 } else { 6000 }) {
+    for _ in 0..(if quick { 400 } else { 3000 }) {
         let w = rng.range(0, 200);
         let h = if rng.chance(1, 4) { w } else if rng.chance(1, 4) { rng.range(0, 12) } else { rng.range(0, 200) };
         let (w, h) = if rng.chance(1, 2) { (w, h) } else { (h, w) };
@@ -150,7 +150,7 @@ fn dotted_ops(tier: Tier, rng: &mut Rng) -> Vec<String> {
         v.push(format!("dotted rect {} {} {} {} {} 9 {} {}", rng.range(-900, 900), rng.range(-900, 900), w, h, f, sw, rng.below(3)));
     }
     // the other primitives with a dotted style (stroke drawn solid, fill area not shrunk)
-    for _ in 0..(if quick { 400 } else { 6000 }) {
+    for _ in 0..(if quick { 400 } else { 3000 }) {
         v.push(format!("dotted {} {}", random_shape(rng, 300, 60), random_style(rng, 24)));
     }
     v
@@ -180,21 +180,25 @@ fn exec_dotted(stream: &str, t: &mut Toks, op: &str, ctx: &mut Ctx) -> String {
             }
         }
     }
-    let d = if stream == "styled.translate" { t.point() } else { Point::zero() };
-    // (map on R1, bounding box, map on R2, map / box of the translated shape, map / box after translate_mut)
+    let moved = stream == "styled.translate";
+    let d = if moved { t.point() } else { Point::zero() };
+    // (map on R1, bounding box; C02: map on R2; C07: map / box of the translated shape, map / box after translate_mut)
     let (m, bb, m2, md, bbd, mm, bbm) = with_shape!(&shape, p => {
         let s = Styled::new(p.clone(), style);
         let mut r1 = R1::<Rgb565>::unbounded();
         s.draw(&mut r1).unwrap();
         let mut r2 = R2::<Rgb565>::unbounded();
-        s.draw(&mut r2).unwrap();
-        let sd = s.translate(d);
         let mut b = R1::<Rgb565>::unbounded();
-        sd.draw(&mut b).unwrap();
+        let mut c = R1::<Rgb565>::unbounded();
+        let sd = s.translate(d);
         let mut sm = s.clone();
         sm.translate_mut(d);
-        let mut c = R1::<Rgb565>::unbounded();
-        sm.draw(&mut c).unwrap();
+        if moved {
+            sd.draw(&mut b).unwrap();
+            sm.draw(&mut c).unwrap();
+        } else {
+            s.draw(&mut r2).unwrap();
+        }
         (r1.rec.map, s.bounding_box(), r2.rec.map, b.rec.map, sd.bounding_box(), c.rec.map, sm.bounding_box())
     });
     match stream {
@@ -243,7 +247,7 @@ impl Module for M {
     fn rule(&self) -> &'static str {
         "styled primitives: exhaustive grid of shapes (all rect/ellipse sizes 0..=N squared, circle diameters 0..=2N, rounded rectangles with equal and unequal radii, \
          all lines / selected triangles / polylines with 0..=4 vertices on a lattice crossing the axes, arcs and sectors on an angle grid) x styles \
-         (4 colour options x stroke widths x 3 alignments) x (C01: 3 target boxes, Rgb565 everywhere plus every 7th (shape, style) pair with BinaryColor / Gray8 / Rgb888 in rotation and an eighth of the random ops; C07: 6 offsets), then seeded random display-scale shapes (stroke widths up to 24 / 16), then for C02 / C07 DOTTED strokes (oracle only: rectangles of all sizes of a grid incl. squares and 8 x 60 x stroke widths on both sides of the dot-size clamp and of the square / round dot switch x alignments, seeded random ones within +-900 with widths up to 128, and seeded random shapes of every other kind with a dotted style; counters dotted:*, styled.*:dotted-<kind>) and a share of wide strokes (13..=128) on shapes of every kind placed within +-900 (quick 200, thorough 3000 ops). \
+         (4 colour options x stroke widths x 3 alignments) x (C01: 3 target boxes, Rgb565 everywhere plus every 7th (shape, style) pair with BinaryColor / Gray8 / Rgb888 in rotation and an eighth of the random ops; C07: 6 offsets), then seeded random display-scale shapes (stroke widths up to 24 / 16), then for C02 / C07 DOTTED strokes (oracle only: rectangles of all sizes of a grid incl. squares and 8 x 60 x stroke widths on both sides of the dot-size clamp and of the square / round dot switch x alignments, seeded random ones within +-900 with widths up to 128, and seeded random shapes of every other kind with a dotted style; counters dotted:*, styled.*:dotted-<kind>) and a share of wide strokes (13..=128) on shapes of every kind placed within +-900 (quick 200, thorough 2000 ops). \
          Non-trivial: the drawable paints at least one pixel (or, for C02 transparency, the style is transparent and the shape non-empty); distinct = distinct op text."
     }
 
@@ -314,7 +318,7 @@ impl Module for M {
                     emit(format!("styled.bbox {}", sh));
                 }
                 // a small share of wide strokes (13..=128) on display-scale shapes of every kind
-                for _ in 0..(if quick { 200 } else { 3000 }) {
+                for _ in 0..(if quick { 200 } else { 2000 }) {
                     emit(format!("styled.bbox {} {}", wide_shape(rng), wide_style(rng)));
                 }
             }
@@ -356,7 +360,7 @@ impl Module for M {
                     emit(format!("styled.translate {} {} {}", sh, d.0, d.1));
                 }
                 // a small share of wide strokes (13..=128) on display-scale shapes of every kind, moved across the axes
-                for _ in 0..(if quick { 200 } else { 3000 }) {
+                for _ in 0..(if quick { 200 } else { 2000 }) {
                     emit(format!("styled.translate {} {} {} {}", wide_shape(rng), wide_style(rng), rng.range(-1000, 1000), rng.range(-1000, 1000)));
                 }
             }
